@@ -48,6 +48,11 @@ async def expect_async(expecter, timeout=None):
         idx = expecter.existing_data()
         if idx is not None:
             return idx
+        if transport.is_closing():
+            # The stream ended while the timeout was firing: that is an
+            # EOF, as it is for the blocking expect().
+            expecter.spawn.flag_eof = True
+            return expecter.eof()
         return expecter.timeout(exc)
 
 
